@@ -786,13 +786,16 @@ def t4(ctx):
         '_ordereddict_unflatten': 'OrderedDict(safe_zip(?M, ?C))',
         '_dict_unflatten': 'dict(safe_zip(?M, ?C))',
         '_defaultdict_unflatten': 'defaultdict(?df, _dict_unflatten(?keys, ?C))',
+        '_dict_insertion_ordered_unflatten': 'dict(safe_zip(?M, ?C))',
+        '_defaultdict_insertion_ordered_unflatten':
+            'defaultdict(?df, _dict_insertion_ordered_unflatten(?keys, ?C))',
     }
     for name, pat in checks.items():
         fn = mod.func(name)
         ps = [a.arg for a in fn.args.posonlyargs + fn.args.args]
         ctx.require(len(ps) == 2, 'registry.%s: %d parameters' % (name, len(ps)))
         env = {'M': ps[0], 'C': ps[1]}
-        if name == '_defaultdict_unflatten':
+        if name in ('_defaultdict_unflatten', '_defaultdict_insertion_ordered_unflatten'):
             un = [e for e in (pmatch(s_, '?df, ?keys = ?M', env) for s_ in fn.body) if e is not None]
             env = un[0] if un else None
         ret = [s_ for s_ in fn.body if isinstance(s_, ast.Return)]
